@@ -162,11 +162,13 @@ def run(tier, seed):
 
     queries = [("Operiod", "bad_indices period_oracle_bad period_cases"),
                ("Oaud", "bad_indices period_oracle_bad audition_period_cases"),
-               ("Onames", "if names_bad accepted_names then [0%N] else []")]
+               ("Onames", "if names_bad accepted_names then [0%N] else []"),
+               ("Op3", "bad_indices period3_oracle_bad period3_cases")]
     if t_ok:
         queries += [("Mperiod", "bad_indices (period_model_bad registered) period_cases"),
                     ("Maud", "bad_indices (period_model_bad registered) audition_period_cases"),
-                    ("Mraw", "bad_indices (raw_model_bad registered) raw_cases")]
+                    ("Mraw", "bad_indices (raw_model_bad registered) raw_cases"),
+                    ("Mp3", "bad_indices (period3_model_bad registered) period3_cases")]
     # period_cases can hold tens of thousands of elements (thorough): Coq's parser overflows its
     # stack on such a list, so it is evaluated in shards (the other definitions go with shard 0)
     header = HEADER_GEN if t_ok else HEADER_NOGEN
@@ -239,13 +241,27 @@ def run(tier, seed):
                        (" -- " + c["Panic"]) if c["Panic"] else ""),
                       {"kind": "failing-input", "input": c,
                        "replay": "cmd.VerifAudition: `al audits only while mood == 'red'`, `al expects %s: [x s] > 3`; per period: mood red, samples 5 (true) / 1 (false), mood clear" % c["Name"]})
+    for c in cases.get("slow_collector", []):
+        if c["Problem"] or c["Fast"] != c["Slow"]:
+            res.violation("reports-lost-when-the-collector-is-slow",
+                          "two `%s` auditors, three samples: against a collector that takes 160 ms per event behind a channel of capacity 1 the reports received are %s, against a fast one %s%s" %
+                          (c["Name"], c["Slow"], c["Fast"], (" -- " + c["Problem"]) if c["Problem"] else ""),
+                          {"kind": "failing-input", "input": c, "replay": "cmd.VerifSlowCollector(config, events, 1, 160ms) vs cmd.VerifAuditLoop(config, events, false)"})
+            break
+    res.coverage["slow_collector_plays"] = len(cases.get("slow_collector", []))
+    for idx in vals["Op3"][:1]:
+        c = cases["period3"][idx]
+        res.violation("rounds-where-the-predicate-does-not-evaluate-are-judged",
+                      "modality %r over the rounds %s (t/f = the predicate's value, e = it does not evaluate): reports %s%s; a round in which the predicate does not evaluate is reported as an error and is not an observation" %
+                      (c["Name"], "".join("fte"[b] for b in c["Trace"]), c["Codes"], (" -- " + c["Panic"]) if c["Panic"] else ""),
+                      {"kind": "failing-input", "input": c, "replay": "cmd.VerifAuditLoop: `al audits throughout`, `al expects %s: [x s] > 3`; samples 5 (t) / 1 (f) / the string oops (e)" % c["Name"]})
     if vals["Onames"]:
         res.violation("modality-names", "the set of modality names accepted by `expects` is not the documented ten: %s" % cases["accepted"],
                       {"kind": "failing-input", "accepted": cases["accepted"]})
     if not res.violations and not res.known:
         for b in broken:
             res.violation(None, b, {"kind": "proof-obligation", "obligation": b, "ce_notes": ce_notes}, no_input=True)
-        for name, key in (("Mperiod", "period"), ("Mraw", "raw"), ("Maud", "audition_period")):
+        for name, key in (("Mperiod", "period"), ("Mraw", "raw"), ("Maud", "audition_period"), ("Mp3", "period3")):
             if vals.get(name):
                 c = cases[key][vals[name][0]]
                 res.violation(None, "model and implementation disagree on a %s case (property oracle passes): correspondence %s broken" % (key, name),
